@@ -158,6 +158,34 @@ func c12Worlds() []c12World {
 		w = base()
 		w.Now.PckCrl = world.T0.AddDate(1, 0, 0)
 		add("fault/only-pck-crl-time-late", w, nil)
+		// an out-of-date re-issue of a CA certificate (same key and names) carried in the quote while the
+		// trusted pool holds the current one: whatever a level decides, a higher level must not accept more
+		for _, v := range []struct {
+			name   string
+			nb, na time.Time
+		}{{"expired", world.T0.AddDate(-10, 0, 0), world.T0.AddDate(0, 0, -1)}, {"not-yet-valid", world.T0.AddDate(0, 0, 1), world.T0.AddDate(10, 0, 0)}} {
+			w = base()
+			oldRoot := world.MakeCert(world.CertSpec{CN: world.CNRoot, IsCA: true, Key: T.RootKey, MaxPathLen: 1, NotBefore: v.nb, NotAfter: v.na}, nil, T.RootKey)
+			p := w.Parts.Clone()
+			p.Chain = world.PEM(T.Leaf, T.Inter, oldRoot)
+			raw, _ := p.Bytes()
+			add("fault/embedded-root-reissue-"+v.name, w, raw)
+			w = base()
+			oldInter := world.MakeCert(world.CertSpec{CN: world.CNPlatform, IsCA: true, Key: T.InterKey, MaxPathLen: -1, NotBefore: v.nb, NotAfter: v.na}, T.Root, T.RootKey)
+			p = w.Parts.Clone()
+			p.Chain = world.PEM(T.Leaf, oldInter, T.Root)
+			raw, _ = p.Bytes()
+			add("fault/embedded-intermediate-reissue-"+v.name, w, raw)
+			// the same for the issuer chains the collateral service sends along
+			w = base()
+			w.TcbHdr = map[string][]string{world.HdrTcbInfo: {world.IssuerChainHeader(T.Tcb, oldRoot)}}
+			w.BuildGetter()
+			add("fault/tcbinfo-issuer-root-reissue-"+v.name, w, nil)
+			w = base()
+			w.PckHdr = map[string][]string{world.HdrPckCrl: {world.IssuerChainHeader(T.Inter, oldRoot)}}
+			w.BuildGetter()
+			add("fault/pckcrl-issuer-root-reissue-"+v.name, w, nil)
+		}
 		w = base()
 		w.Now.TcbInfo = world.T0.AddDate(1, 0, 0)
 		add("fault/only-tcbinfo-time-late", w, nil)
